@@ -3902,6 +3902,15 @@ class OptionalNode(ActionSinkNode):
         if sub_dfa.starting_state in sub_dfa.accepting_states:
             raise IllegalDFAStateError("Ambigious path in optional: should use optional or go to next", sub_dfa.starting_state)
 
+        if sub_dfa.transitions_pointing_to(sub_dfa.starting_state) and not isinstance(sub_dfa.starting_state, DFConditionPoint):
+            # The contents can come back to their first state (e.g. /a*b/). Skipping is only possible before anything was
+            # matched, so the decision gets a state of its own.
+            entry_state = ProgramData.imbue(DFState(), DTAG.PARENT, self)
+            for trans in sub_dfa.starting_state.transitions:
+                entry_state.transition(trans.copy())
+            sub_dfa.add(entry_state)
+            sub_dfa.starting_state = entry_state
+
         sub_dfa.mark_accepting(sub_dfa.starting_state)
 
         # Add starting actions
